@@ -118,6 +118,19 @@ impl St {
         });
     }
 
+    /// Records what the handle reports right after `reset_match()` (not an action invocation:
+    /// not counted against the budget).
+    pub fn on_observe(&mut self, rule: u32, span: (LLoc, LLoc), text: Option<String>, peek: Option<char>) {
+        self.log.push(LogEntry {
+            item_idx: self.cur_item,
+            rule: rule | proto::POST_RESET,
+            start: cv(span.0),
+            end: cv(span.1),
+            text,
+            peek,
+        });
+    }
+
     pub fn next_dec(&mut self) -> Dec {
         let d = self.script.get(self.pos).copied().unwrap_or(Dec::Ret);
         self.pos += 1;
@@ -156,7 +169,8 @@ impl Iterator for CounterIter {
 pub trait Lx: Clone {
     type E: ErrPayload;
     fn nx(&mut self) -> Option<Result<(LLoc, u32, LLoc), lexgen_util::LexerError<Self::E>>>;
-    fn st(&mut self) -> &mut St;
+    /// The harness's user state; `None` for lexers declared without a user state type.
+    fn st(&mut self) -> Option<&mut St>;
 }
 
 fn conv<E: ErrPayload>(r: Result<(LLoc, u32, LLoc), lexgen_util::LexerError<E>>) -> Item {
@@ -194,7 +208,10 @@ struct Side<L: Lx> {
 
 impl<L: Lx> Side<L> {
     fn step(&mut self) {
-        self.lx.st().cur_item = self.base + self.run.items.len() as u32;
+        let cur = self.base + self.run.items.len() as u32;
+        if let Some(st) = self.lx.st() {
+            st.cur_item = cur;
+        }
         HEARTBEAT.fetch_add(1, Ordering::Relaxed);
         match self.lx.nx() {
             Some(x) => {
@@ -220,7 +237,7 @@ impl<L: Lx> Side<L> {
         }
     }
     fn finish(mut self) -> Run {
-        self.run.log = std::mem::take(&mut self.lx.st().log);
+        self.run.log = self.lx.st().map(|st| std::mem::take(&mut st.log)).unwrap_or_default();
         self.run
     }
 }
@@ -325,9 +342,9 @@ macro_rules! glue {
             fn nx(&mut self) -> Option<Result<($crate::LLoc, u32, $crate::LLoc), ::lexgen_util::LexerError<$Err>>> {
                 Iterator::next(self)
             }
-            fn st(&mut self) -> &mut $crate::St {
+            fn st(&mut self) -> Option<&mut $crate::St> {
                 // only the documented handle API is used (no access to generated fields)
-                self.state()
+                Some(self.state())
             }
         }
 
@@ -373,6 +390,48 @@ macro_rules! glue {
     };
 }
 
+/// Same for a lexer declared without a user state type (`Lexer -> Token;`): the state is `()`,
+/// nothing is logged, the constructors are the stateless ones (and the `_with_state` ones with
+/// `()`).
+#[macro_export]
+macro_rules! glue0 {
+    ($Lexer:ident, $Err:ty) => {
+        impl<'input, I: Iterator<Item = char> + Clone> $crate::Lx for $Lexer<'input, I> {
+            type E = $Err;
+            fn nx(&mut self) -> Option<Result<($crate::LLoc, u32, $crate::LLoc), ::lexgen_util::LexerError<$Err>>> {
+                Iterator::next(self)
+            }
+            fn st(&mut self) -> Option<&mut $crate::St> {
+                None
+            }
+        }
+
+        pub fn run(case: &$crate::Case) -> $crate::Trace {
+            $crate::run_case(case, |case, _st, chars| {
+                let n = chars.len();
+                match case.ctor {
+                    $crate::Ctor::New => {
+                        let buf = $crate::take_input_buf(&case.input);
+                        let r = $crate::drive($Lexer::new(&buf), case, n);
+                        $crate::put_input_buf(buf);
+                        r
+                    }
+                    $crate::Ctor::NewWithState => $crate::drive($Lexer::new_with_state(&case.input, ()), case, n),
+                    $crate::Ctor::FromIterVec => $crate::drive($Lexer::new_from_iter(chars.into_iter()), case, n),
+                    $crate::Ctor::FromIterVecWithState => {
+                        $crate::drive($Lexer::new_from_iter_with_state(chars.into_iter(), ()), case, n)
+                    }
+                    $crate::Ctor::FromIterChars => $crate::drive($Lexer::new_from_iter(case.input.chars()), case, n),
+                    $crate::Ctor::FromIterCounterWithState => {
+                        let it = $crate::CounterIter { chars: ::std::sync::Arc::new(chars), pos: 0 };
+                        $crate::drive($Lexer::new_from_iter_with_state(it, ()), case, n)
+                    }
+                }
+            })
+        }
+    };
+}
+
 /// Body of an infallible (`=>`) semantic action. `mode` is one of
 /// `ret`, `cont`, `rcont`, `sw(k)`, `swret(k)`, `script`, `script_nosw`.
 #[macro_export]
@@ -382,6 +441,13 @@ macro_rules! act {
         let __text = if $l.state().use_match { Some($l.match_().to_string()) } else { None };
         let __peek = $l.peek();
         $l.state().on_action($id, __span, __text, __peek);
+    }};
+    (@reset $l:ident, $id:expr) => {{
+        $l.reset_match();
+        let __span = $l.match_loc();
+        let __text = if $l.state().use_match { Some($l.match_().to_string()) } else { None };
+        let __peek = $l.peek();
+        $l.state().on_observe($id, __span, __text, __peek);
     }};
     ($l:ident, $id:expr, ret) => {{
         $crate::act!(@log $l, $id);
@@ -393,7 +459,7 @@ macro_rules! act {
     }};
     ($l:ident, $id:expr, rcont) => {{
         $crate::act!(@log $l, $id);
-        $l.reset_match();
+        $crate::act!(@reset $l, $id);
         $l.continue_()
     }};
     ($l:ident, $id:expr, sw($k:expr)) => {{
@@ -409,11 +475,11 @@ macro_rules! act {
         match $l.state().next_dec() {
             $crate::Dec::Ret | $crate::Dec::Err(_) => $l.return_($id),
             $crate::Dec::Cont => $l.continue_(),
-            $crate::Dec::ResetCont => { $l.reset_match(); $l.continue_() }
+            $crate::Dec::ResetCont => { $crate::act!(@reset $l, $id); $l.continue_() }
             $crate::Dec::Switch(k) => $l.switch(rule_of(k)),
             $crate::Dec::SwitchRet(k) => $l.switch_and_return(rule_of(k), $id),
-            $crate::Dec::ResetRet => { $l.reset_match(); $l.return_($id) }
-            $crate::Dec::ResetSwitch(k) => { $l.reset_match(); $l.switch(rule_of(k)) }
+            $crate::Dec::ResetRet => { $crate::act!(@reset $l, $id); $l.return_($id) }
+            $crate::Dec::ResetSwitch(k) => { $crate::act!(@reset $l, $id); $l.switch(rule_of(k)) }
         }
     }};
     ($l:ident, $id:expr, script_nosw) => {{
@@ -421,8 +487,8 @@ macro_rules! act {
         match $l.state().next_dec() {
             $crate::Dec::Ret | $crate::Dec::Err(_) | $crate::Dec::SwitchRet(_) => $l.return_($id),
             $crate::Dec::Cont | $crate::Dec::Switch(_) => $l.continue_(),
-            $crate::Dec::ResetCont | $crate::Dec::ResetSwitch(_) => { $l.reset_match(); $l.continue_() }
-            $crate::Dec::ResetRet => { $l.reset_match(); $l.return_($id) }
+            $crate::Dec::ResetCont | $crate::Dec::ResetSwitch(_) => { $crate::act!(@reset $l, $id); $l.continue_() }
+            $crate::Dec::ResetRet => { $crate::act!(@reset $l, $id); $l.return_($id) }
         }
     }};
 }
@@ -442,13 +508,17 @@ macro_rules! actf {
         $crate::act!(@log $l, $id);
         match $l.state().next_dec() {
             $crate::Dec::Ret => $l.return_(Ok($id)),
+            // a nonce with a non-zero top byte also names a rule set: switch AND fail
+            $crate::Dec::Err(n) if n >> 24 != 0 => {
+                $l.switch_and_return(rule_of((n >> 24) - 1), Err($crate::UErr { nonce: n, rule: $id }))
+            }
             $crate::Dec::Err(n) => $l.return_(Err($crate::UErr { nonce: n, rule: $id })),
             $crate::Dec::Cont => $l.continue_(),
-            $crate::Dec::ResetCont => { $l.reset_match(); $l.continue_() }
+            $crate::Dec::ResetCont => { $crate::act!(@reset $l, $id); $l.continue_() }
             $crate::Dec::Switch(k) => $l.switch(rule_of(k)),
             $crate::Dec::SwitchRet(k) => $l.switch_and_return(rule_of(k), Ok($id)),
-            $crate::Dec::ResetRet => { $l.reset_match(); $l.return_(Ok($id)) }
-            $crate::Dec::ResetSwitch(k) => { $l.reset_match(); $l.switch(rule_of(k)) }
+            $crate::Dec::ResetRet => { $crate::act!(@reset $l, $id); $l.return_(Ok($id)) }
+            $crate::Dec::ResetSwitch(k) => { $crate::act!(@reset $l, $id); $l.switch(rule_of(k)) }
         }
     }};
     ($l:ident, $id:expr, script_nosw) => {{
@@ -457,8 +527,8 @@ macro_rules! actf {
             $crate::Dec::Ret | $crate::Dec::SwitchRet(_) => $l.return_(Ok($id)),
             $crate::Dec::Err(n) => $l.return_(Err($crate::UErr { nonce: n, rule: $id })),
             $crate::Dec::Cont | $crate::Dec::Switch(_) => $l.continue_(),
-            $crate::Dec::ResetCont | $crate::Dec::ResetSwitch(_) => { $l.reset_match(); $l.continue_() }
-            $crate::Dec::ResetRet => { $l.reset_match(); $l.return_(Ok($id)) }
+            $crate::Dec::ResetCont | $crate::Dec::ResetSwitch(_) => { $crate::act!(@reset $l, $id); $l.continue_() }
+            $crate::Dec::ResetRet => { $crate::act!(@reset $l, $id); $l.return_(Ok($id)) }
         }
     }};
 }
